@@ -344,13 +344,14 @@ def check(ctx):
         conds = [c for c in pc if c[0][0] != "loop"]
         last = conds[-1] if conds else None
         ok, detail = False, "condition not recognised"
-        if last and last[1] and last[0][0] == "cmp" and last[0][1] in (">", ">=", "!="):
+        ne = ir.nonempty_entry(last) if last else None
+        if last and (ne is not None or (last[1] and last[0][0] == "cmp" and last[0][1] in (">", ">=", "!="))):
             l = last[0][2]
             txt = ir.show(l, maxdepth=12)
             uses_counts = "value_counts" in txt and "geographic_unit_fips" in txt
             on_R = any(_get_units_elem(x, 0) for x in ir.walk(l))
             gt1 = any(x[0] == "cmp" and x[1] == ">" and x[3] == ("const", 1) for x in ir.walk(l))
-            thr = last[0][3] == ("const", 0) and last[0][1] in (">", "!=")
+            thr = ne is not None or (last[0][3] == ("const", 0) and last[0][1] in (">", "!="))
             # F30 / F33: the ids have to be counted BEFORE the exclusion rules of get_units: in the feed itself (or in the combined data,
             # baseline join feed - which misses units that are not modelled), over the rows of every id that has a row at or above the
             # threshold (or over all rows)
